@@ -714,4 +714,221 @@ theorem decompile_decomp (q : Quirks) (K : Kernel) (n : Nat) (gs : List AGate) (
     (by simp [startOf]) h
   simpa using this
 
+/-! ## index form of the structure theorem -/
+
+theorem cl_np_disjoint {q : Quirks} {g : AGate} (h : cl q g = true) : np g = false := by
+  unfold cl at h; unfold np
+  rw [isZB_eq] at h; rw [isNopClass_eq]
+  cases hc : g.cls <;> simp_all [GClass.isNop]
+
+/-- index form of one section, relative to the window `W` whose first gate has index `a` -/
+structure SecGood (q : Quirks) (a : Nat) (W : List AGate) (s : Section) : Prop where
+  lo : a ≤ s.start
+  lt : s.start < s.stop
+  hi : s.stop ≤ a + W.length
+  first : ∃ g, W[s.start - a]? = some g ∧ cl q g = true
+  inside : ∀ k, s.start ≤ k → k < s.stop →
+    ∃ g, W[k - a]? = some g ∧ (cl q g = true ∨ np g = true)
+  gates_eq : s.gates = ((W.drop (s.start - a)).take (s.stop - s.start)).filter (cl q)
+
+theorem SecGood.shift {q : Quirks} {a : Nat} {P W : List AGate} {s : Section}
+    (h : SecGood q (a + P.length) W s) : SecGood q a (P ++ W) s := by
+  obtain ⟨lo, lt, hi, first, inside, ge⟩ := h
+  have e1 : ∀ k, a + P.length ≤ k → (P ++ W)[k - a]? = W[k - (a + P.length)]? := by
+    intro k hk
+    rw [List.getElem?_append_right (by omega)]
+    congr 1; omega
+  refine ⟨by omega, lt, by simp; omega, ?_, ?_, ?_⟩
+  · rw [e1 _ lo]; exact first
+  · intro k h1 h2; rw [e1 k (by omega)]; exact inside k h1 h2
+  · have : s.start - a = P.length + (s.start - (a + P.length)) := by omega
+    rw [this, List.drop_append, List.drop_of_length_le (by omega), Nat.add_sub_cancel_left,
+      List.nil_append]; exact ge
+
+theorem stopOf_bounds {q : Quirks} {o : Nat} {R : List AGate} (hR : Run q R) :
+    o < stopOf o R ∧ stopOf o R ≤ o + R.length := by
+  obtain ⟨g0, R', rfl, h0, _⟩ := hR
+  unfold stopOf
+  split
+  · next hl =>
+    cases R' with
+    | nil => simp [cl_np_disjoint h0] at hl
+    | cons b R'' => simp
+  · simp
+
+theorem filter_take_stop {q : Quirks} {o : Nat} {R T : List AGate} (hR : Run q R) :
+    R.filter (cl q) = ((R ++ T).take (stopOf o R - o)).filter (cl q) := by
+  obtain ⟨g0, R', hR', h0, _⟩ := hR
+  unfold stopOf
+  split
+  · next hl =>
+    have hne : R ≠ [] := by rw [hR']; simp
+    have e : o + R.length - 1 - o = R.length - 1 := by omega
+    rw [e, List.take_append_of_le_length (by omega), ← List.dropLast_eq_take]
+    cases hlast : R.getLast? with
+    | none => rw [List.getLast?_eq_none_iff] at hlast; exact absurd hlast hne
+    | some x =>
+      rw [hlast] at hl
+      simp only [Option.map_some, Option.getD_some] at hl
+      have hx : cl q x = false := by
+        cases hc : cl q x with
+        | false => rfl
+        | true => rw [cl_np_disjoint hc] at hl; cases hl
+      have hx' : R.getLast hne = x := by
+        have := List.getLast?_eq_some_getLast hne
+        rw [hlast] at this; exact (Option.some.inj this).symm
+      have := List.dropLast_concat_getLast hne
+      rw [hx'] at this
+      conv => lhs; rw [← this]
+      simp [List.filter_append, List.filter, hx]
+  · have e : o + R.length - o = R.length := by omega
+    rw [e, List.take_left']
+    rfl
+
+theorem SecGood.of_run {q : Quirks} {K : Kernel} {n o : Nat} {R T : List AGate} {s : Section}
+    (hR : Run q R) (hs : SecOf q K n s o R) : SecGood q o (R ++ T) s := by
+  have hb := stopOf_bounds (o := o) hR
+  obtain ⟨g0, R', hR', h0, hall⟩ := id hR
+  obtain ⟨hst, hsp, hg, _⟩ := hs
+  refine ⟨by omega, by omega, by simp; omega, ?_, ?_, ?_⟩
+  · rw [hst, hR']; exact ⟨g0, by simp, h0⟩
+  · intro k h1 h2
+    have hk : k - o < R.length := by omega
+    rw [List.getElem?_append_left hk]
+    refine ⟨R[k - o], by simp, ?_⟩
+    have hall' : ∀ x ∈ R, cl q x = true ∨ np x = true := by
+      intro x hx
+      rw [hR'] at hx
+      rcases List.mem_cons.mp hx with hm | hm
+      · rw [hm]; exact Or.inl h0
+      · exact hall _ hm
+    exact hall' _ (List.getElem_mem _)
+  · rw [hg, hst, hsp, Nat.sub_self, List.drop_zero]
+    exact filter_take_stop hR
+
+/-- index form of the structure theorem, part 1: every section -/
+theorem Decomp.secGood {q : Quirks} {K : Kernel} {n a : Nat} {W : List AGate} {secs : List Section}
+    (h : Decomp q K n a W secs) : ∀ s ∈ secs, SecGood q a W s := by
+  induction h with
+  | done => intro s hs; cases hs
+  | last a B R s _ hR hs =>
+    intro s' hs'
+    simp only [List.mem_singleton] at hs'; subst hs'
+    have := SecGood.of_run (T := []) hR hs
+    simpa using this.shift
+  | cons a B R sep W s secs _ hR _ _ hs _ ih =>
+    intro s' hs'
+    rcases List.mem_cons.mp hs' with hs' | hs'
+    · subst hs'
+      have := SecGood.of_run (T := sep :: W) hR hs
+      simpa using this.shift
+    · have h1 := ih s' hs'
+      have e : a + B.length + R.length + 1 = a + (B ++ R ++ [sep]).length := by simp; omega
+      rw [e] at h1
+      simpa using h1.shift
+
+theorem run_cl_lt_stop {q : Quirks} {o j : Nat} {R : List AGate} {g : AGate}
+    (hj : R[j]? = some g) (hg : cl q g = true) : o + j < stopOf o R := by
+  have hlt : j < R.length := by
+    rcases Nat.lt_or_ge j R.length with h | h
+    · exact h
+    · rw [List.getElem?_eq_none h] at hj; cases hj
+  unfold stopOf
+  split
+  · next hl =>
+    have hne : R ≠ [] := by intro h; subst h; simp at hlt
+    have hlast := List.getLast?_eq_some_getLast hne
+    rw [hlast] at hl
+    simp only [Option.map_some, Option.getD_some] at hl
+    have : j ≠ R.length - 1 := by
+      intro hj'
+      have : R.getLast hne = g := by
+        rw [List.getLast_eq_getElem]
+        have := List.getElem?_eq_getElem hlt
+        rw [hj] at this
+        simp only [← hj']
+        exact (Option.some.inj this).symm
+      rw [this, cl_np_disjoint hg] at hl; cases hl
+    omega
+  · omega
+
+/-- ranges are increasing and disjoint (even separated by at least one index) -/
+theorem Decomp.ordered {q : Quirks} {K : Kernel} {n a : Nat} {W : List AGate} {secs : List Section}
+    (h : Decomp q K n a W secs) : secs.Pairwise (fun x y => x.stop < y.start) := by
+  induction h with
+  | done => exact List.Pairwise.nil
+  | last => exact List.pairwise_singleton _ _
+  | cons a B R sep W s secs _ hR _ _ hs hd ih =>
+    refine List.Pairwise.cons ?_ ih
+    intro y hy
+    have h1 := (hd.secGood y hy).lo
+    have h2 := (stopOf_bounds (o := a + B.length) hR).2
+    rw [← hs.stop_eq] at h2
+    omega
+
+/-- every classical gate lies in a reported range -/
+theorem Decomp.covered {q : Quirks} {K : Kernel} {n a : Nat} {W : List AGate} {secs : List Section}
+    (h : Decomp q K n a W secs) : ∀ k g, W[k]? = some g → cl q g = true →
+      ∃ s ∈ secs, s.start ≤ a + k ∧ a + k < s.stop := by
+  induction h with
+  | done a B hB =>
+    intro k g hk hg
+    rw [hB g (List.mem_of_getElem? hk)] at hg; cases hg
+  | last a B R s hB hR hs =>
+    intro k g hk hg
+    rcases Nat.lt_or_ge k B.length with hlt | hge
+    · rw [List.getElem?_append_left hlt] at hk
+      rw [hB g (List.mem_of_getElem? hk)] at hg; cases hg
+    · rw [List.getElem?_append_right hge] at hk
+      have := run_cl_lt_stop (o := a + B.length) hk hg
+      refine ⟨s, by simp, by rw [hs.start_eq]; omega, by rw [hs.stop_eq]; omega⟩
+  | cons a B R sep W s secs hB hR hsep _ hs hd ih =>
+    intro k g hk hg
+    rcases Nat.lt_or_ge k B.length with hlt | hge
+    · rw [List.append_assoc, List.getElem?_append_left hlt] at hk
+      rw [hB g (List.mem_of_getElem? hk)] at hg; cases hg
+    · rw [List.append_assoc, List.getElem?_append_right hge] at hk
+      rcases Nat.lt_or_ge (k - B.length) R.length with hlt2 | hge2
+      · rw [List.getElem?_append_left hlt2] at hk
+        have := run_cl_lt_stop (o := a + B.length) hk hg
+        refine ⟨s, by simp, by rw [hs.start_eq]; omega, by rw [hs.stop_eq]; omega⟩
+      · rw [List.getElem?_append_right hge2] at hk
+        cases hj : k - B.length - R.length with
+        | zero =>
+          rw [hj] at hk; simp at hk; subst hk
+          rw [hsep] at hg; cases hg
+        | succ j =>
+          rw [hj] at hk; simp at hk
+          obtain ⟨s', hs', h1, h2⟩ := ih j g hk hg
+          exact ⟨s', List.mem_cons_of_mem _ hs', by omega, by omega⟩
+
+/-- maximality: between two reported ranges there is a gate that is neither classical nor a
+no-op -/
+theorem Decomp.separated {q : Quirks} {K : Kernel} {n a : Nat} {W : List AGate}
+    {secs : List Section} (h : Decomp q K n a W secs) :
+    secs.Pairwise (fun x y => ∃ k g, x.stop ≤ k ∧ k < y.start ∧ W[k - a]? = some g ∧
+      cl q g = false ∧ np g = false) := by
+  induction h with
+  | done => exact List.Pairwise.nil
+  | last => exact List.pairwise_singleton _ _
+  | cons a B R sep W s secs _ hR hsep hnp hs hd ih =>
+    refine List.Pairwise.cons ?_ ?_
+    · intro y hy
+      have h1 := (hd.secGood y hy).lo
+      have h2 := (stopOf_bounds (o := a + B.length) hR).2
+      rw [← hs.stop_eq] at h2
+      refine ⟨a + B.length + R.length, sep, by omega, by omega, ?_, hsep, hnp⟩
+      have : a + B.length + R.length - a = (B ++ R).length := by simp; omega
+      rw [this, List.getElem?_append_right (Nat.le_refl _)]
+      simp
+    · refine ih.imp_of_mem ?_
+      intro x y hx _ hxy
+      obtain ⟨k, g, h1, h2, h3, h4, h5⟩ := hxy
+      have hx1 := (hd.secGood x hx).lo
+      have hx2 := (hd.secGood x hx).lt
+      refine ⟨k, g, h1, h2, ?_, h4, h5⟩
+      have e : B ++ R ++ sep :: W = (B ++ R ++ [sep]) ++ W := by simp
+      rw [e, List.getElem?_append_right (by simp; omega)]
+      rw [← h3]; congr 1; simp; omega
+
 end QV.Decompiler
